@@ -100,6 +100,9 @@ func wire(m Msg) (raw string, framed bool, reqID string) {
 		return fmt.Sprintf(`{"jsonrpc":"2.0","method":%q,"params":{"x":1}}`, m.Method), true, ""
 	case "typed_wrong": // valid JSON, wrong field types, with an id
 		return fmt.Sprintf(`{"jsonrpc":2.0,"id":%q,"method":%q,"params":[]}`, id, m.Method), true, id
+	case "client_response":
+		// a response object (to a request the server never sent): nothing is to be sent back
+		return fmt.Sprintf(`{"jsonrpc":"2.0","id":"resp%d",%s}`, m.ID, m.Raw), true, ""
 	case "malformed_json":
 		return m.Raw, true, ""
 	case "bad_header":
@@ -431,6 +434,10 @@ func genMsg(rt *rapid.T, id int, open map[string]string, feat map[string]bool) M
 		feat["typed_wrong"] = true
 		return Msg{Kind: "typed_wrong", ID: id, Method: rapid.SampledFrom(methods).Draw(rt, "method")}
 	case 17:
+		if rapid.IntRange(0, 2).Draw(rt, "client_response") == 0 {
+			feat["client_response"] = true
+			return Msg{Kind: "client_response", ID: id, Raw: rapid.SampledFrom([]string{`"result":null`, `"result":{"applied":true}`, `"error":{"code":-32601,"message":"no"}`}).Draw(rt, "resp")}
+		}
 		feat["malformed_json"] = true
 		return Msg{Kind: "malformed_json", Raw: rapid.SampledFrom([]string{`{"jsonrpc":"2.0","method":`, `[1,2`, `nonsense`, `{"id":}`, `{}`, `[]`, `"str"`, `{"jsonrpc":"2.0","method":5}`}).Draw(rt, "raw")}
 	case 18:
